@@ -201,6 +201,15 @@ def check_states(version: str) -> list:
                 want = (int(f[0]), int(f[1]), int(f[2]), int(f[3]), int(f[4]), f[5])
                 if out.fields != want:
                     viols.append(("C02|state-decoded-values-differ", f"[{version}] in gateway state {setup} the line {line!r} was yielded as {out.fields}", {"version": version, "state_check": True}))
+                # the application turns the message it got into its reply (edits it in place); the node repeats its line
+                m = out.value
+                try:
+                    m.ack, m.payload, m.child_id = 1, "edited", 200
+                except Exception:  # noqa: BLE001
+                    pass
+                out2 = s.line(line)
+                if out2.kind == "yield" and out2.fields != want:
+                    viols.append(("C02|repeated-line-decoded-values-differ", f"[{version}] in gateway state {setup} the line {line!r} was yielded, the application edited that message object, the same line arrived again and was yielded as {out2.fields}", {"version": version, "state_check": True}))
     return viols
 
 
